@@ -45,6 +45,15 @@ Theorem c02_wrapper_pure :
 Proof. exact (fun B zero lib Hok => write_scratch_irrelevant zero lib Hok). Qed.
 Print Assumptions c02_wrapper_pure.
 
+(* a failing Decompress leaves nothing behind: block i reads the same from two files that agree from block i's
+   offset on, whatever happened to the blocks before it (no hypothesis on the libraries) *)
+Theorem c02_damage_local :
+  forall (B : Type) (zero : B) (lib : enct -> impl -> codec B) c (bytes bytes' : list B) hdr i b,
+    nth_error hdr i = Some b -> skipn (b_off b) bytes = skipn (b_off b) bytes' ->
+    read_block zero lib c bytes hdr i = read_block zero lib c bytes' hdr i.
+Proof. exact (fun B zero lib => read_block_local zero lib). Qed.
+Print Assumptions c02_damage_local.
+
 (* ------------------------------------------------------------------ non-vacuity *)
 (* two DIFFERENT compressors sharing one format: header byte 255 (cgo) or 254 (native) followed by the data;
    both decoders accept both headers *)
@@ -96,4 +105,12 @@ Example c02_example_block :
   compress_w 0%N toy2 (impl_of CfgNoLibZstd EZstd) EZstd 6 [1; 2; 3]%N scratch true = Ok ([254; 1; 2; 3]%N, 4%Z)
   /\ decompress_w toy2 (impl_of CfgCgo EZstd) EZstd 4 (Build_slice [0; 0; 0]%N 3)
                   (Build_reader RFile [254; 1; 2; 3; 99]%N) = Ok (3%Z, [1; 2; 3]%N).
+Proof. split; reflexivity. Qed.
+
+(* c02_damage_local on a concrete file: the two bytes before the block differ (a damaged predecessor), the block
+   itself reads the same *)
+Example c02_damage_local_example :
+  let hdr := [{| b_off := 2; b_len := 3; b_raw := 3; b_enc := ENull |}] in
+  read_block 0%N toy2 CfgNoCgo [9; 9; 1; 2; 3]%N hdr 0 = Ok [1; 2; 3]%N
+  /\ read_block 0%N toy2 CfgNoCgo [8; 7; 1; 2; 3]%N hdr 0 = Ok [1; 2; 3]%N.
 Proof. split; reflexivity. Qed.
